@@ -249,6 +249,19 @@ def check_props(prop):
     return res
 
 
+def golden_check():
+    """The golden computation (model/Scenario.v) is evaluated by the Coq kernel (proofs/GoldenFacts.v proves
+    golden tt = golden_expected tt by vm_compute) and by the extracted OCaml code (modelrun --golden); both must
+    agree - a check of the extraction and of the OCaml build, not of the contracts."""
+    rc, out = coq_make(["proofs/GoldenFacts.vo"])
+    if rc != 0:
+        raise MachineryError("proofs/GoldenFacts.v does not check (the kernel's golden values differ from golden_expected):\n" + out[-1500:])
+    rc, out = run([MODEL_BIN, "--golden"], cwd=MODEL_DIR, timeout=120)
+    if rc != 0 or "GOLDEN ok" not in out:
+        raise MachineryError("extracted model disagrees with the kernel on the golden computation: " + out[-500:])
+    return out.strip()
+
+
 def coqchk_props(prop):
     """Re-check props/<prop>.vo and everything it depends on with the independent checker; returns the
     report's axiom / type-in-type / unsafe-fixpoint / assumed-positivity sections."""
